@@ -198,6 +198,13 @@ def _c07_cases(tier, seed):
     n = 40 if tier == "quick" else 500
     kinds = ["mink", "fourier", "msm", "lik", "gsl"]
     yield {"loss": "gsl", "rs": 1, "fixed": {"N": 40, "nbv": None, "nwl": 3}}   # default symbol count >= 10
+    # every weighting x standardisation combination of the method of moments, systematically (two data sets each)
+    for cov in ("identity", "matrix", "inverse_variance"):
+        for std in (False, True):
+            if cov == "inverse_variance" and std:
+                continue
+            for _ in range(2):
+                yield {"loss": "msm", "rs": rnd.randrange(10 ** 9), "msm_opt": (cov, std)}
     for i in range(n):
         yield {"loss": kinds[i % len(kinds)], "rs": rnd.randrange(10 ** 9)}
 
@@ -258,6 +265,8 @@ def _c07_eval(reg, case, cache, opt_seed):
         elif case["loss"] == "msm":
             cov = rnd.choice(["identity", "inverse_variance", "matrix"])
             std = rnd.random() < 0.3 and cov != "inverse_variance"
+            if "msm_opt" in case:
+                cov, std = case["msm_opt"]
             if kind == "const" and (cov != "identity" or std):
                 return None  # 0/0 in the standardised / inverse-variance variants: outside 'finite, well-defined'
             W = cov
@@ -439,6 +448,10 @@ def _series(rnd, n, shape):
     g = np.random.default_rng(rnd.randrange(10 ** 9))
     if shape == "const":
         return np.full(n, 3.5)
+    if shape == "const_inexact":      # a constant whose mean does not round-trip: std is ~1e-17, not 0.0
+        return np.full(n, rnd.choice([0.3, 0.1, 1234.567]))
+    if shape == "alt_inexact":        # numerically (not exactly) constant absolute first difference
+        return np.array([0.1 if k % 2 == 0 else 0.4 for k in range(n)])
     if shape == "linear":
         return 2.0 + 0.5 * np.arange(n)
     if shape == "alt":
@@ -453,7 +466,7 @@ def _c20_cases(tier, seed):
     lens = [3, 4, 5, 8, 50] if tier == "quick" else [3, 4, 5, 6, 8, 20, 50, 200, 500, 2000]
     lambs = [1e-3, 1.0, 1600.0, 1e7]
     for n in lens:
-        for shape in ("const", "linear", "alt", "walk", "decr"):
+        for shape in ("const", "linear", "alt", "walk", "decr", "const_inexact", "alt_inexact"):
             # several lambdas on same-length series within ONE case (state shared between calls must not matter)
             yield {"n": n, "shape": shape, "lambs": rnd.sample(lambs, len(lambs)), "rs": rnd.randrange(10 ** 9)}
 
@@ -508,7 +521,7 @@ def _c20_check(reg, case):
 
 
 StandIn("C20/filters-and-moments", "C20",
-        "lengths {3,4,5,8,50} x shapes {constant, linear, alternating, random walk, decreasing}, each with lambdas "
+        "lengths {3,4,5,8,50} x shapes {constant (exact and inexact), linear, alternating (exact and inexact), random walk, decreasing}, each with lambdas "
         "{1e-3,1,1600,1e7} in seeded order on the same series: cycle+trend, HP optimality residual against a dense "
         "reference (tolerance scaled by the condition number), the three derived filters against their definitions, "
         "18 finite moments", "lengths up to 2000", _c20_cases, _c20_check)
